@@ -37,7 +37,7 @@ CHECKS = {
         design_ref='DESIGN.md 2.7, 5/C03',
         text=('DroSem.tla defines event-wise ambiguity sets on a grid-exact family (supports with vertex lists incl. singletons, Wasserstein-style '
               '1-norm balls, mixed kinds per scenario; five probability sets with rational vertices; expectation sets on the full event and on '
-              'sub-events with equality and box means) and two model forms (E(maxof) objective; event-wise / affinely adaptive decision with rows '
+              'sub-events (prefix, non-prefix and overlapping; positional, string and 1-based integer labels) with equality and box means) and two model forms (E(maxof) objective; event-wise / affinely adaptive decision with rows '
               'for every realisation; optional E-constraint). TLC enumerates programs and their member distributions (membership checked in exact '
               'rationals); every program is built and solved through the API; TLC then checks every row at every support vertex and the objective and '
               'E-constraints under every member; the primal moment LP (HiGHS, independent of rsome) gives the exact worst-case expectation at the '
@@ -78,8 +78,8 @@ CHECKS = {
               'VIEW) and exports complete histories (all short ones; long ones by -simulate with a forced closing solve). Each history is executed '
               'on a real model; after every solve each constraint must report the worst case of the set DECLARED for it, obtained from a fresh '
               'single-constraint model in which nothing can leak (one item kind per support-model list, distinct radii so any leaked or lost item moves the value).'),
-        note=('Relational oracle (same library, fresh model), as the property is stated; C01 covers absolute correctness. Set definitions after st(), '
-              'dro ambiguity sets and late rvar/dvar declarations are not in the action alphabet yet. ECOS tolerance 2e-5 (5e-4 with p-norm/exp items).')),
+        note=('Relational oracle (same library, fresh model), as the property is stated; C01 covers absolute correctness. DroLifecycle.tla covers the dro life cycle (ambiguity(), supports per scenario, late dvar/adapt, st, solve); '
+              'late rvar is a known finding; mix_support is not in the action alphabet. ECOS tolerance 2e-5 (5e-4 with p-norm/exp items).')),
     'C17': dict(
         level='model_checking',
         technique='TLC action properties MisuseIsolated / Model2Isolated on Lifecycle.tla + replay of histories with cross-model misuse steps into two real models',
@@ -178,12 +178,12 @@ CHECKS = {
         level='model_checking',
         technique='TLC-verified rewrite table (Rewrite.tla: DenotInvariant on every reachable presentation) + TLC-exported orbits replayed into rsome.ro / rsome.dro; relational verdict along orbit edges and against the exact grid optimum',
         design_ref='DESIGN.md 5/C15, 2.7',
-        text=('Rewrite.tla defines a presentation = a RoSem program (1-/2-row constraints incl. 2-row array constraints, six polytope sets, decision rules, '
+        text=('Rewrite.tla defines a presentation = a RoSem program (1-/2-row constraints incl. 2-row array constraints, seven polytope sets incl. one with negative finite bounds, decision rules, '
               'integer/continuous, min/max/minmax/maxmin) + one choice per element of how it is written; Present() is the syntax handed to the library, Meaning() '
               'its denotation computed from the presented text on a grid wider than the box; TLC checks GridOptOf(Meaning(Present)) = RoSem.GridOpt exhaustively '
-              'for words <=3/4 on a feature-covering sample and on random words <=3/5 over the family (13 rewrites: objective negation, declaration/statement/'
+              'for words <=3/4 on a feature-covering sample and on random words <=3/5 over the family (14 rewrites: objective negation, declaration/statement/'
               'objective order, a<=b | -b<=-a | b>=a, equality | two inequalities, terms moved across, constant first, rescaling 1,2,1/2,3, array | loop, box as '
-              'Bounds/entry Bounds/linear rows/inf-norm/abs, set as list/args/tuple/generator/mixed/nested, ro | dro(1) with/without E()). Each exported orbit '
+              'Bounds/entry Bounds/linear rows/inf-norm/abs, set as list/args/tuple/generator/mixed/nested, bounds inside a set as Bounds objects | linear constraints, ro | dro(1) with/without E()). Each exported orbit '
               'member is rendered literally and solved; neighbouring members (one rewrite apart) must agree in value (2e-6 rel, x10 margin, reproduced with a '
               'second solver), solvability and not raising; every member must satisfy the C02 relation with the grid optimum.'),
         note=('Trusted: TLC, RoSem oracle, ro_catalogue.py. Bounded: 2 decisions + 1 rule, 2 random components, <=2 constraints, symmetric box only, polytope sets '
@@ -259,11 +259,11 @@ CHECKS = {
         design_ref='DESIGN.md 2.1, 5/C13',
         text=('TLC enumerates every history of adapt()/slice calls within the constants on an implementation-shaped '
               'transcription of evtadapt/affadapt/comb_set/rule_var (ordered event lists, heap-aliased masks) and checks '
-              'IsPartition, SharedIffSameEvent, ColsInjective, CombIsMeet, MaskExact, IllegalRaises; every exported state '
-              'is replayed into the real library, which must raise exactly on illegal declarations and must reproduce the '
+              'IsPartition, SharedIffSameEvent, ColsInjective, SlopeSharedIffSameEvent, SlopeColsInjective (both loop nests of rule_var), CombIsMeet, MaskExact, IllegalRaises; every exported state '
+              'is replayed into the real library, which must raise exactly on illegal declarations, whose rule_var() column map (static and slope columns, read by harness/colmap.py) must give one rule per DECLARED event, and which must reproduce the '
               'exact optimum and per-scenario values TLC computed from the DECLARED adaptation (a model granting more or '
               'less freedom has a different optimum). Code -> spec: harness/tracer.py wraps evtadapt / affadapt / slicing from outside (no source '
-              'change), records the calls of seeded random programs beyond the TLC constants (up to 6 scenarios, string and non-positional '
+              'change; the rule_var() column map is logged as one more event and judged by ColMapOK), records the calls of seeded random programs beyond the TLC constants (up to 6 scenarios, string and non-positional '
               'labels, held slices, duplicates, unknown labels) and of the repository dro tests; PartitionTrace.tla replays each trace against the '
               'actions of Partition.tla with the logged arguments, outcome and projected state and evaluates the ideal invariants in every '
               'state; corrupted copies of accepted traces must be rejected.'),
